@@ -842,8 +842,18 @@ func (fr *Frame) applyContractVars(c *Contract, fn *ssa.Function, cc *ssa.CallCo
 	default:
 		if c.HavocExt {
 			restore := fr.keepOwnBoxes()
+			// what a held monitor protects is not touched by code that cannot take its lock
+			held := map[string]bool{}
+			if m := fr.R.monitor; m != nil && fr.st.held[m.Name] {
+				for _, comp := range fr.R.protectedComps(fr, m) {
+					held[comp] = true
+				}
+			}
+			for _, comp := range fr.heldLockComps() {
+				held[comp] = true
+			}
 			for _, n := range fr.R.Heap.Names() {
-				if !fr.moduleOwnedComp(n) {
+				if !fr.moduleOwnedComp(n) && !held[n] {
 					fr.R.Heap.Havoc(fr.st, n)
 				}
 			}
